@@ -100,6 +100,7 @@ def catch_fitness(name, analysis, model, kwargs):
 
 def run_rows(ctx, live):
     import c04
+    import c04_logprior
     rng = ctx.rng
     rows = {r["name"]: r for r in live["rows"]} if live else {}
     exported = sorted(c.__name__ for c in all_search_classes())
@@ -159,7 +160,7 @@ def run_rows(ctx, live):
                 calls.append({"v": [a, b], "o": c04.gen_outcome(rng)})
             swarm = seen["fitness_class"] == "pyswarms"
             req = {"p": "C04", "search": name, "hist": seen["store_history"], "comp": X.node_of(model), "lims": lims, "asserts": [],
-                   "priors": pdesc, "cfg": {"fom_is_ll": True, "chi": False, "history": False, "resample": f2h(0.0)},
+                   "priors": pdesc, "prior_table": c04_logprior.prior_table(X.node_of(model)), "cfg": {"fom_is_ll": True, "chi": False, "history": False, "resample": f2h(0.0)},
                    "calls": [{"v": [f2h(x) for x in c["v"]], "o": c04.wire_outcome(c["o"])} for c in calls]}
             ans = ctx.lean.ask(req)
             case = case | {"calls": calls, "wrap": analysis.wrap}
